@@ -56,6 +56,8 @@ type Mode struct {
 	Number   bool // decode numbers as json.Number
 	NumStyle int  // 0 shortest, 1 "1.0"/"1.50", 2 exponent form  (json.Number only)
 	MapOrder int  // insertion order variant for objects
+	Share    bool // equal non-empty containers of one document are ONE Go object (a document assembled in memory
+	// from shared parts: a DAG, still the same JSON value)
 }
 
 func numText(n int64, style int) string {
@@ -71,6 +73,69 @@ func numText(n int64, style int) string {
 
 // opaque Go values (C20): table indexed by ty; see opaque.go
 func (v MV) ToGo(m Mode) interface{} {
+	if m.Share {
+		m.Share = false
+		return v.toGoShared(m, map[string]interface{}{})
+	}
+	return v.toGo(m)
+}
+
+// HasSharing reports whether two equal non-empty containers occur in v
+func (v MV) HasSharing() bool {
+	seen := map[string]bool{}
+	var walk func(x MV) bool
+	walk = func(x MV) bool {
+		if (x.T == "arr" && len(x.A) > 0) || (x.T == "obj" && len(x.O) > 0) {
+			b, _ := json.Marshal(x)
+			if seen[string(b)] {
+				return true
+			}
+			seen[string(b)] = true
+		}
+		for i := range x.A {
+			if walk(x.A[i]) {
+				return true
+			}
+		}
+		for i := range x.O {
+			if walk(x.O[i].Val) {
+				return true
+			}
+		}
+		return false
+	}
+	return walk(v)
+}
+
+func (v MV) toGoShared(m Mode, memo map[string]interface{}) interface{} {
+	switch {
+	case v.T == "arr" && len(v.A) > 0:
+		b, _ := json.Marshal(v)
+		if g, ok := memo[string(b)]; ok {
+			return g
+		}
+		out := make([]interface{}, len(v.A))
+		for i := range v.A {
+			out[i] = v.A[i].toGoShared(m, memo)
+		}
+		memo[string(b)] = out
+		return out
+	case v.T == "obj" && len(v.O) > 0:
+		b, _ := json.Marshal(v)
+		if g, ok := memo[string(b)]; ok {
+			return g
+		}
+		out := make(map[string]interface{}, len(v.O))
+		for i := range v.O {
+			out[cps(v.O[i].Key)] = v.O[i].Val.toGoShared(m, memo)
+		}
+		memo[string(b)] = out
+		return out
+	}
+	return v.toGo(m)
+}
+
+func (v MV) toGo(m Mode) interface{} {
 	switch v.T {
 	case "null":
 		return nil
@@ -86,7 +151,7 @@ func (v MV) ToGo(m Mode) interface{} {
 	case "arr":
 		out := make([]interface{}, len(v.A))
 		for i := range v.A {
-			out[i] = v.A[i].ToGo(m)
+			out[i] = v.A[i].toGo(m)
 		}
 		return out
 	case "obj":
@@ -118,7 +183,7 @@ func (v MV) ToGo(m Mode) interface{} {
 			}
 		}
 		for _, i := range idx {
-			out[cps(v.O[i].Key)] = v.O[i].Val.ToGo(m)
+			out[cps(v.O[i].Key)] = v.O[i].Val.toGo(m)
 		}
 		return out
 	case "opq":
